@@ -3,11 +3,13 @@
 -/
 import MayVerif.Core.Trace
 import MayVerif.Model.Sync.MutexReplay
+import MayVerif.Model.Sync.RwLockReplay
 import MayVerif.Model.Sync.SemReplay
 import MayVerif.Model.Sync.SyncFlagReplay
 import MayVerif.Model.Queue.MpscReplay
 import MayVerif.Model.Queue.SpscReplay
 import MayVerif.Model.Runtime.JoinReplay
+import MayVerif.Model.Runtime.LifeReplay
 import MayVerif.Model.Chan.MpscReplay
 import MayVerif.Model.Queue.SpmcReplay
 import MayVerif.Model.Sync.CondvarReplay
@@ -17,11 +19,14 @@ open MayVerif
 
 def machines : List (String × Machine) := [
   ("mutex", MayVerif.Mutex.machine),
+  ("rwlock", MayVerif.RwLock.machine),
+  ("rwlock_reg", MayVerif.RwLock.machine),
   ("sem", MayVerif.Sem.machine),
   ("syncflag", MayVerif.SyncFlag.machine),
   ("mq_mpsc", MayVerif.Mpsc.machine),
   ("mq_spsc", MayVerif.Spsc.machine),
   ("join", MayVerif.Join.machine),
+  ("life", MayVerif.Life.machine),
   ("ch_mpsc", MayVerif.Chan.Mpsc.machine),
   ("mq_spmc", MayVerif.Spmc.machine),
   ("condvar", MayVerif.Condvar.machine),
